@@ -79,6 +79,10 @@ def check_gene(spec, ctx):
     # (a gene's own location is its span on the plus strand, whatever the strands of its transcripts - documented)
     ctx.eq("span_location_strand", rm.loc_strand(gene.chromosome_location), "+")
     ctx.eq("is_coding", gene.is_coding, any(coding))
+    # the ranking keys: CDS size = sum of the CDS block lengths (a base shared by two overlapping blocks - the -1 frameshift model -
+    # is read twice and counts twice), spliced size = sum of the exon lengths
+    ctx.eq("member_cds_sizes", [t_.cds_size for t_ in gene.transcripts], [cds_len(t) for t in txs])
+    ctx.eq("member_spliced_sizes", [len(t_) for t_ in gene.transcripts], [spl_len(t) for t in txs])
     # primary
     p = gene.get_primary_transcript()
     ctx.true("primary_is_child", any(p is t for t in gene.transcripts))
